@@ -59,6 +59,14 @@ def oracle(name: str, args):
         return mp.exp(z)
     if name == "sqrt":
         return mp.sqrt(z)
+    if name == "Re":
+        return mp.re(z)
+    if name == "Im":
+        return mp.im(z)
+    if name == "conj":
+        return mp.conj(z)
+    if name in ("atan", "arctan"):
+        return mp.atan(z)
     return None
 
 
